@@ -148,18 +148,48 @@ def gen_errs(rng, n):
     return [hx(e) for e in errs]
 
 
-def gen_rmv(rng):
+# The property is scale-free: readings and uncertainties of any magnitude (wavelengths in metres, capacitances in
+# farads, counts in the millions).  Scale factors applied to a whole case; powers of two keep dyadic data dyadic.
+SCALES = [2.0 ** -30, 2.0 ** -40, 2.0 ** -50, 1e-9, 1e-12, 5.32e-7, 2.0 ** 30, 1e6]
+POW2_SCALES = [2.0 ** -30, 2.0 ** -40, 2.0 ** -50, 2.0 ** 30]
+
+
+def scale_errs(errs, f):
+    if errs is None:
+        return None
+    if isinstance(errs, list):
+        return [hx(fx(h) * f) for h in errs]
+    return hx(fx(errs) * f)
+
+
+def gen_rmv(rng, pow2=False):
+    """pow2: only powers of two as scale factors (the readings stay short dyadic numbers)"""
     u = rng.random()
+    scale = 1.0
     if u < 0.3:                                     # numpy arrays of a narrow dtype, values at its precision limit
         container = rng.choice(["f32", "f32", "f16", "f16", "i64", "i32", "i16"])
         xs = sl.gen_typed_readings(rng, container)
     else:
         xs = sl.gen_readings(rng)
+        if rng.random() < 0.4:
+            scale = rng.choice(POW2_SCALES if pow2 else SCALES)
+            xs = [x * scale for x in xs]
+            if len(set(xs)) < 2:
+                xs, scale = sl.gen_readings(rng), 1.0
         container = sl.pick_container(rng, xs, 0.35)
+    errs = scale_errs(gen_errs(rng, len(xs)), scale)
+    v = rng.random()
+    if errs is not None and v < 0.22:               # uncertainties much smaller than the readings ...
+        tiny = rng.choice([2.0 ** -30, 2.0 ** -40] if pow2 else [2.0 ** -30, 1e-9, 2.0 ** -40, 1e-12])
+        if isinstance(errs, list) and v < 0.14:     # ... a single small one among ordinary ones
+            i = rng.randrange(len(errs))
+            errs[i] = hx(fx(errs[i]) * tiny)
+        else:
+            errs = scale_errs(errs, tiny)
     sels = [rng.choice(["std", "eom", "ewm", "perr"]) for _ in range(rng.choice([0, 1, 2, 3, 4, 6, 9]))]
-    return {"xs": [hx(x) for x in xs], "errs": gen_errs(rng, len(xs)), "container": container,
-            "k": hx(sl.dyadic(rng, 4, 2, nonzero=True)), "c": hx(sl.dyadic(rng, 5, 1)), "sels": sels,
-            "offsets": [hx(o) for o in sl.gen_offsets(rng)], "mc_seed": rng.randrange(2 ** 32)}
+    return {"xs": [hx(x) for x in xs], "errs": errs, "container": container,
+            "k": hx(sl.dyadic(rng, 4, 2, nonzero=True)), "c": hx(sl.dyadic(rng, 5, 1) * scale), "sels": sels,
+            "offsets": [hx(o) for o in sl.gen_offsets(rng)], "mc_seed": rng.randrange(2 ** 32), "scale": hx(scale)}
 
 
 def gen_pair(rng):
@@ -185,6 +215,9 @@ def gen_pair(rng):
     else:
         ys = [sl.dyadic(rng, 5, 1)] * n
         kind = "zero-spread"
+    if rng.random() < 0.35:                          # either array at another magnitude (exact: powers of two)
+        fx_, fy_ = rng.choice(POW2_SCALES + [1.0]), rng.choice(POW2_SCALES + [1.0])
+        xs, ys = [x * fx_ for x in xs], [y * fy_ for y in ys]
     case = {"xs": [hx(x) for x in xs], "ys": [hx(y) for y in ys], "setter": rng.choice(["set_cov", "set_corr"]),
             "form": rng.choice(["fn", "meth"]), "container": sl.pick_container(rng, xs, 0.35),
             "container_b": sl.pick_container(rng, ys, 0.35), "kind": kind}
@@ -211,6 +244,11 @@ def gen_ctor(rng):
         errs[rng.randrange(n)] = -sl.dyadic(rng, 4, 3, positive=True, nonzero=True)
     else:
         errs = [sl.dyadic(rng, 4, 3, positive=True) for _ in range(n)]
+    if rng.random() < 0.3:
+        f = rng.choice(SCALES)
+        errs = [e * f for e in errs]
+        if rng.random() < 0.5:
+            xs = [x * f for x in xs]
     return {"xs": [hx(x) for x in xs], "errs": [hx(e) for e in errs], "container": sl.pick_container(rng, xs, 0.3)}
 
 
@@ -293,6 +331,12 @@ def correspondence(ctx):
                                        ("individual-with-zero" if any(fx(h) == 0 for h in e) else "individual"))
         res.count("rmv:n={}".format(len(case["xs"])))
         res.count("rmv:container:" + case.get("container", "list"))
+        sc = fx(case.get("scale", hx(1.0)))
+        res.count("rmv:scale:" + ("1" if sc == 1 else "{:.0e}".format(sc)))
+        if e is not None:
+            el = [fx(h) for h in (e if isinstance(e, list) else [e])]
+            if any(0 < x <= 1e-8 for x in el):
+                res.count("rmv:uncertainties:some in (0, 1e-8]" + (" among ordinary ones" if any(x > 1e-6 for x in el) else ""))
         res.count("rmv:uncertainties:" + ek)
         for s, w, _, _, _ in hist:
             res.count("selector:{}:{}".format(s, "warned" if w else "applied"))
@@ -357,7 +401,8 @@ def correspondence(ctx):
     res.rule = ("(a) q.Measurement(readings[, uncertainties]) for dyadic reading arrays of length 2-12 (small / large offset / fine / "
                 "wide / exact-std; list, list of numpy scalars, mixed int / float list, or numpy array of dtype float64 / float32 / float16 / "
                 "int64 / int32 / int16 with values exactly representable in the dtype, biased to its precision limit such as 2^24 for "
-                "float32; no, common, individual, partly zero or very unequal uncertainties): raw_data, "
+                "float32; whole cases scaled by 2^-30 ... 2^-50, 1e-9, 1e-12, 5.32e-7, 2^30, 1e6 and uncertainties scaled down by a "
+                "further 1e-9 ... 1e-12, also a single tiny one among ordinary ones (all comparisons relative); no, common, individual, partly zero or very unequal uncertainties): raw_data, "
                 "mean, std, error_on_mean, error_weighted_mean, propagated_error, value, error of the fresh object and after each "
                 "call of a random use_* history (0-9 calls), the warning flag, value / error of k*a+c computed afterwards by the "
                 "derivative method, and in every state the Monte Carlo samples of k*a+c and a*a retrieved with injected dyadic "
@@ -419,7 +464,8 @@ def mc_oracle(a, k, c, offs, want_value, want_error, where, seed=None):
         if not sl.finite(smp) or abs(fr(smp) - want) > Fraction(1, 10 ** 12) * scale:
             return ("{}: Monte Carlo sample of a*a for the offset {} is {}, but value + offset * uncertainty in use "
                     "({} + {} * {}) gives {}".format(where, o, smp, fx(want_value), o, fx(want_error), float(want)))
-    if seed is not None and fx(want_error) > 0:
+    resolvable = abs(k) * fx(want_error) > 1e-6 * (abs(k * fx(want_value)) + abs(c))      # else offset * error is lost in rounding
+    if seed is not None and fx(want_error) > 0 and resolvable:
         import numpy as np
         state = np.random.get_state()
         np.random.seed(seed)
@@ -445,7 +491,7 @@ def check_rmv_oracle(case):
     n = len(xs)
     m, v = sl.mean(xs), sl.var(xs)
     valid = all(s > 0 for s in ss)
-    matol = Fraction(1, 10 ** 9) * sum((abs(x) for x in xs), Fraction(0)) / n      # mean-like numbers may cancel to ~0
+    matol = Fraction(1, 10 ** 12) * sum((abs(x) for x in xs), Fraction(0)) / n      # mean-like numbers may cancel to ~0
     q.set_error_method("derivative")
     a = sl.build(["repeated", case["xs"], case["errs"], case.get("container", "list")])
     k, c = fx(case["k"]), fx(case["c"])
@@ -484,7 +530,6 @@ def check_rmv_oracle(case):
         return "fresh object: value / error {} / {} are not mean / error on the mean {} / {}".format(
             fx(o["value"]), fx(o["error"]), fx(o["mean"]), fx(o["eom"]))
     want_value, want_error = o["mean"], o["eom"]
-    b = q.Measurement(1.5, 0.25)
     offs = case_offsets(case)
     seed = case.get("mc_seed")
     why = mc_oracle(a, k, c, offs, want_value, want_error, "fresh object", seed if not case["sels"] else None)
@@ -516,9 +561,11 @@ def check_rmv_oracle(case):
                 not sl.close(fr(float(d.error)), abs(Fraction(k)) * fr(want_error), 1e-12):
             return "{}: {}*a+{} = {} +/- {}, expected {} +/- {}".format(
                 where, k, c, float(d.value), float(d.error), k * fx(want_value) + c, abs(k) * fx(want_error))
+        eb = 0.75 * fx(want_error)                  # a second source of comparable size (the check is scale-free)
+        b = q.Measurement(1.5, eb)
         t = a + b
-        if not sl.close(fr(float(t.error)) ** 2, fr(want_error) ** 2 + Fraction(1, 16), 1e-12):
-            return "{}: (a+b).error = {}, expected sqrt({}^2 + 0.25^2)".format(where, float(t.error), fx(want_error))
+        if not sl.close(fr(float(t.error)) ** 2, fr(want_error) ** 2 + fr(eb) ** 2, 1e-12):
+            return "{}: (a+b).error = {}, expected sqrt({}^2 + {}^2)".format(where, float(t.error), fx(want_error), eb)
         why = mc_oracle(a, k, c, offs, want_value, want_error, where, seed if i == len(case["sels"]) - 1 else None)
         if why:
             return why
